@@ -57,6 +57,10 @@ def check(acc: Acc, name: str, xs: list[float], dyadic: bool) -> None:
     arr = np.array(xs)
     Y1 = h.hedge(arr)
     Y2 = h.hedge(arr.reshape(1, -1))
+    if not np.array_equal(arr, np.array(xs)):
+        acc.violate("input-array-modified", {"hedge": name}, {"hedge": name, "x": 0.5}, "x unchanged", "x overwritten",
+                    f"{name}.hedge modifies the caller's array")
+        return
     if np.shape(Y1) != arr.shape or np.shape(Y2) != (1, len(xs)):
         acc.violate("array-shape", {"hedge": name}, {"hedge": name, "x": xs[:4]}, arr.shape, np.shape(Y1),
                     f"{name}: array evaluation does not preserve the shape")
